@@ -78,9 +78,9 @@ def func(name, **kw):
 # ---------------------------------------------------------------- generator
 
 
-IDENTS = ["a", "b", "c1", "foo", "bar-baz", "x_y", "-moz-x", "main", "red", "auto", "none", "solid"]
+IDENTS = ["a", "b", "c1", "foo", "bar-baz", "x_y", "-moz-x", "main", "red", "auto", "none", "solid", "i😀"]
 ESCAPED_IDENTS = [("a.b", "a\\.b"), ("123", "\\31 23"), ("café", "caf\\e9 "), ("a b", "a\\ b"), ("x:y", "x\\:y")]
-CLASSES = ["a", "b", "c", "item", "btn-primary", "x_1", "中", "a-b"]
+CLASSES = ["a", "b", "c", "item", "btn-primary", "x_1", "中", "a-b", "😀x", "b😀"]
 UNITS = ["px", "em", "rem", "vh", "vw", "deg", "s", "ms", "fr", "RPX", "rpxx", "erpx", "rp", "x"]
 PSEUDO = ["hover", "first-child", "before", "active", "root"]
 PROPS = ["color", "margin", "width", "z-index", "font", "background", "--x", "--my-var", "transform", "grid-template-columns", "content", "line-height"]
@@ -324,7 +324,7 @@ class Gen:
                     part.append(inner)
                 part.append(simple(")"))
             elif r < 0.58:
-                part = [string(self.pick(["x", "a b", ".c", "7rpx", "it's", 'q"q', "中", "</style>", ""]), self.pick(['"', "'"]))]
+                part = [string(self.pick(["x", "a b", ".c", "7rpx", "it's", 'q"q', "中", "</style>", "", "😀", "a😀😀b"]), self.pick(['"', "'"]))]
             elif r < 0.63:
                 u = self.pick(["a.png", "x/y.png?z=1", "data:image/png;base64,AAAA"])
                 part = [T("url", u, "url(" + u + ")")]
@@ -391,7 +391,9 @@ class Gen:
         return {"t": "host", "decls": self.declarations(), "combo": combo}
 
     def at_rule(self, depth, sel_depth):
-        kind = self.pick(["media", "media", "supports", "document", "layer", "container", "scope", "keyframes", "font-face", "statement", "page"])
+        kind = self.pick(["media", "media", "supports", "document", "layer", "container", "scope", "starting-style", "keyframes", "font-face", "statement", "page"])
+        if kind == "starting-style":
+            return {"t": "at", "name": "starting-style", "pre": [], "body": "rules", "rules": self.rules(depth - 1, sel_depth)}
         if kind == "media":
             pre = []
             if self.chance(0.5):
@@ -415,7 +417,7 @@ class Gen:
             pre = [func("url-prefix", ctx="prelude", ws=True), string("https://x"), simple(")", ctx="prelude")]
             return {"t": "at", "name": "document", "pre": pre, "body": "rules", "rules": self.rules(depth - 1, sel_depth)}
         if kind == "layer":
-            pre = [ident(self.pick(["base", "theme"]), ctx="prelude", ws=True)]
+            pre = self.pick([[ident("base", ctx="prelude", ws=True)], [ident("theme", ctx="prelude", ws=True)], [], [ident("fw", ctx="prelude", ws=True), delim(".", ctx="prelude", wsmean="mustnot"), ident("ui", ctx="prelude", wsmean="mustnot")]])
             return {"t": "at", "name": "layer", "pre": pre, "body": "rules", "rules": self.rules(depth - 1, sel_depth)}
         if kind == "container":
             pre = [ident("card", ctx="prelude", ws=True), T("(", None, "(", ctx="prelude", ws=True), ident("min-width", ctx="prelude"), simple(":", ctx="prelude")]
